@@ -1,5 +1,5 @@
 """C04 — Killing the process at any instant leaves a usable, consistent database (structural part)."""
-from sa.facts import AnalysisBroken, expr_str, qmatch, strip_casts, relpath, core
+from sa.facts import expr_plain, AnalysisBroken, expr_str, qmatch, strip_casts, relpath, core
 from sa import cfg
 from sa.cfg import BranchFacts
 from sa.flow import arg_nodes
@@ -188,6 +188,30 @@ def run(ctx):
     ok = bool(opens) and all((c_.get("fn") or "") == "sqlite3_open" and expr_str(core(arg_nodes(c_)[0])) == "path.c_str()" for f_, c_ in opens)
     r.check(ok, "open|default-vfs-on-path", "%d open call(s)" % len(opens), "database opened other than with sqlite3_open(path)", opens[0][0] if opens else None)
 
+    # the files SQLite's recovery depends on are touched by SQLite only
+    FSMUT = {"unlink", "remove", "rename", "truncate", "ftruncate", "open", "open64", "fopen", "creat", "rmdir", "link", "symlink", "chmod", "mkstemp",
+             "remove_all", "rm_tree", "copy_file", "resize_file", "createUniqueFile", "openFileForWrite"}
+    fsc = []
+    for f_ in db.fns:
+        for c_ in f_.calls():
+            nm_ = c_.get("fn") or ""
+            if c_.get("k") == "call" and nm_.split("::")[-1] in FSMUT and ("::" not in nm_ or nm_.startswith(("llbuild::basic::sys::", "llvm::sys::", "std::filesystem", "std::"))):
+                fsc.append((f_, c_))
+    r.check(len(fsc) == 1, "db-files|only-the-recreate-unlink", "%d file-system call(s)" % len(fsc),
+            "the database layer makes %d direct file-system calls (one expected: unlinking the database file to recreate it)" % len(fsc), fsc[0][0] if fsc else None)
+    for f_, c_ in fsc:
+        fn_short = f_.name.split("::")[-1]
+        a0 = expr_plain(arg_nodes(c_)[0]) if arg_nodes(c_) else ""
+        bfo = BranchFacts(f_, kill="assign")
+        st = bfo.at_node(c_) or frozenset()
+        closes = [x for x in f_.calls() if (x.get("fn") or "") == "sqlite3_close"]
+        after_close = any(cfg.dominated_by(f_, cfg.pos_of(f_, c_), lambda p, e, xp=cfg.pos_of(f_, x): p == xp)[0] for x in closes)
+        ok = fn_short == "open" and (c_.get("fn") or "").endswith("unlink") and a0 == "path.c_str()" and after_close and \
+            any("recreateOnUnmatchedVersion" in a for a, p in st)
+        r.check(ok, "db-files|%s(%s) in %s" % ((c_.get("fn") or "").split("::")[-1], a0[:30], fn_short), "",
+                "%s(%s): the database layer removes or rewrites a file that SQLite owns (the rollback journal is what makes a killed commit recoverable; "
+                "only the database file itself may be unlinked, after closing it, to recreate it on a version mismatch)" % ((c_.get("fn") or "").split("::")[-1], a0[:40]), f_, c_)
+
     r = rep.rule("R-RESULT-FROM-COMPLETED-TASK", "a rule result is written to the database only for a task taken from the finished queue, after it was "
                                                  "stamped complete and its discovered dependencies were appended", floor=3)
     E.r_discovered_append(prog, rep)
@@ -218,6 +242,12 @@ def failed_start_only(f, path_blocks, bs_call):
 
 
 VARIANTS = [
+    dict(name="stale-journal-unlinked-on-open", file="lib/Core/SQLiteBuildDB.cpp",
+         old="    sqlite3_busy_timeout(db, 5000);", new="    (void)basic::sys::unlink((path + \"-journal\").c_str());\n    sqlite3_busy_timeout(db, 5000);",
+         expect=("R-DB-ATOMIC-COMMIT", "db-files|")),
+    dict(name="database-unlinked-without-version-mismatch", file="lib/Core/SQLiteBuildDB.cpp",
+         old="    sqlite3_busy_timeout(db, 5000);", new="    if (path.size() > 200) (void)basic::sys::unlink(path.c_str());\n    sqlite3_busy_timeout(db, 5000);",
+         expect=("R-DB-ATOMIC-COMMIT", "db-files|")),
     dict(name="epoch-write-deferred-after-commit", file="lib/Core/BuildEngine.cpp",
          edits=[("      if (db)\n        db->buildComplete();\n    };", "      if (!db)\n        return;\n      db->buildComplete();\n      std::string error;\n      if (!db->setCurrentIteration(currentEpoch, &error))\n        delegate.error(error);\n    };"),
                 ("    if (db) {\n      std::string error;\n      bool result = db->setCurrentIteration(currentEpoch, &error);\n      if (!result) {\n        delegate.error(error);\n        static ValueType emptyValue{};\n        return emptyValue;\n      }\n    }\n", "")],
